@@ -167,7 +167,7 @@ def length_facts(seg):
         return []
     facts = [ln >= 0]
     k = seg.codec[0]
-    if k in ("ent", "nent"):
+    if k in ("ent", "nent", "absitem"):
         facts.append(ln >= min_len(seg.codec))
     if k in ("carr", "larr"):
         facts.append(ln >= (1 if k == "carr" else 4))
@@ -199,6 +199,8 @@ def min_len(d):
         return schema_spec.min_len_entity(d[1])
     if k == "run":
         return 0
+    if k == "absitem":
+        return 1
     raise Undecided(f"min_len {d}")
 
 
@@ -215,7 +217,20 @@ def uv_bytes(v, n):
 
 
 def unfold(ctx, seg):
-    """one level of definition; returns a list of segments. May fork (ctx.decide)."""
+    """one level of definition; returns a list of segments. May fork (ctx.decide).
+    Also records the definitional fact |seg| == sum of the parts' lengths."""
+    parts = _unfold(ctx, seg)
+    ln = seg.length()
+    for p in parts:
+        if isinstance(p, Enc):
+            for f in length_facts(p):
+                ctx.assume(f)
+    if not isinstance(ln, int):
+        ctx.assume(zint(ln) == zint(total_len(normalise(parts))))
+    return parts
+
+
+def _unfold(ctx, seg):
     d, args = seg.codec, seg.args
     k = d[0]
     if k == "uv":
@@ -238,6 +253,8 @@ def unfold(ctx, seg):
         ctx.assume(v == tot)
         if n > 1:
             ctx.assume(gs[-1] >= 1)
+        for i, g in enumerate(gs):      # the same digits in quotient/remainder form (a theorem)
+            ctx.assume(g == ((v / (128 ** i)) % 128 if i else v % 128))
         return [Byte(g + 128) for g in gs[:-1]] + [Byte(gs[-1])]
     if k == "sv":
         v = args[0]
